@@ -86,6 +86,9 @@ def region_alphabet():
     # announced values that need the high byte of the 16-bit prefix
     add("extarr_bool_256", [], ("arr", ("bool",), 256, True))
     add("extmsg_big", [("Em", ("msg", True, [(("arr", ("uint", 64), 4, False), "w", 1), (("uint", 7), "x", 2)]))], ("ref", "Em"))
+    # a placeholder: an extensible message without fields (docs/language.rst allows it) that later versions fill
+    add("extmsg_empty", [("Em", ("msg", True, []))], ("ref", "Em"))
+    add("arr_of_empty_extmsg", [("Em", ("msg", True, []))], ("arr", ("ref", "Em"), 2, False))
     add("extmsg_in_extmsg", [("In", ("msg", True, [(("uint", 4), "i", 1)])),
                              ("Em", ("msg", True, [(("ref", "In"), "inner", 1), (("uint", 3), "t", 2)]))], ("ref", "Em"))
     return out
